@@ -450,6 +450,27 @@ PLANS.update({
 })
 
 
+def T_only(module, name, consts, invariants=(), properties=(), spec='MCSpec', timeout=3000):
+    """TLC on the specification alone (design level): no emission, nothing is executed on the code."""
+    def run(ctx):
+        t0 = time.time()
+        cfg = ctx.write_cfg('tlc_' + name, spec, consts, invariants=invariants, properties=properties)
+        p = subprocess.run(['timeout', str(timeout)] + ctx.tlc_cmd(module, cfg), cwd=ctx.specdir(), env=ctx.env, capture_output=True, text=True)
+        if p.returncode == 124:
+            raise Broken('stage %s: TLC timed out after %ds' % (name, timeout))
+        gen, dist = ctx.parse_tlc_log(p.stdout + p.stderr, name)
+        ctx.cov['states'] += dist
+        ctx.cov['stages'].append({'stage': name, 'module': module, 'direction': 'TLC on the specification only', 'constants': consts,
+                                  'invariants': list(invariants), 'properties': list(properties), 'tlc_states_generated': gen,
+                                  'tlc_distinct_states': dist, 'wall_s': round(time.time() - t0, 1)})
+    return run
+
+
+def T_depth(name, maxlen, sigma='tiny'):
+    return T_only('MCScanner', name, {'MaxLen': maxlen, 'SigmaId': '"%s"' % sigma, 'EmitOn': 'FALSE', 'MaxDepth': 3, 'MaxNest': 3},
+                  invariants=('ScanOK', 'LanguageEq', 'ErrorAbsorbs', 'TransducersOK'), spec='SSpec')
+
+
 def A_words(name, maxlen, sigma, depth=10000, **kw):
     def run(ctx):
         consts = {'MaxLen': maxlen, 'SigmaId': '"%s"' % sigma, 'EmitOn': 'TRUE', 'MaxDepth': depth, 'MaxNest': depth}
@@ -466,17 +487,19 @@ TEXT_ASSUME = [
 
 PLANS.update({
     'C16': {
-        'quick': [A_words('w4', 4, 'full')],
-        'thorough': [A_words('w5', 5, 'full', timeout=9000), A_words('w7s', 7, 'tiny', timeout=9000)],
+        'quick': [A_words('w4', 4, 'full'), T_depth('depth6', 6)],
+        'thorough': [A_words('w5', 5, 'full', timeout=9000), A_words('w7s', 7, 'tiny', timeout=9000), T_depth('depth7', 7)],
         'rule': 'TLC enumerates every word up to the stated length (extending viable prefixes only, so first-error words are included), checks '
                 'on the specification that the scanner automaton (Scanner.tla, a transcription of scanner.go) accepts exactly the texts of '
                 'the declarative RFC 8259 grammar (JsonText.tla) and that Compact/Indent accept the same language; every word, bare and '
                 'wrapped in white space, is given to the codec\'s Valid/Compact/Indent/Unmarshal/Decoder and to DecodePatch, Apply, '
                 'MergePatch (both positions), MergeMergePatches (both), CreateMergePatch, Equal, whose accept/reject must equal the '
-                'specification verdict composed with the shape each entry point requires; distinct_nontrivial counts words',
+                'specification verdict composed with the shape each entry point requires; the nesting limit: TLC checks with MaxDepth = 3 that '
+                'automaton and grammar accept nesting d exactly when d <= MaxDepth (all words to length 6/7 over the structural alphabet), and '
+                'array/object nestings of depth 9999, 10000, 10001 are given to the real entry points; distinct_nontrivial counts words',
         'exhaustive': True, 'assumptions': TEXT_ASSUME,
-        'required_labels': {t: ['Word_invalid', 'Word_valid_obj', 'Word_valid_arr', 'Word_valid_num', 'Word_valid_str', 'Word_valid_null']
-                            for t in ('quick', 'thorough')},
+        'required_labels': {t: ['Word_invalid', 'Word_valid_obj', 'Word_valid_arr', 'Word_valid_num', 'Word_valid_str', 'Word_valid_null',
+                                'Depth_arr_true', 'Depth_arr_false', 'Depth_obj_true', 'Depth_obj_false'] for t in ('quick', 'thorough')},
     },
 })
 
